@@ -16,21 +16,22 @@ import (
 
 // Witness describes one concrete run to be replayed natively.
 type Witness struct {
-	Property string            `json:"property"`
-	Pkg      string            `json:"pkg"`
-	Harness  string            `json:"harness"`
-	Params   []string          `json:"params"`
-	Values   []WitVal          `json:"values"`
-	Choices  []WitVal          `json:"choices"`
-	Outcome  string            `json:"outcome"` // done | panic | assert:<label> | steps | alloc | write
-	Obs      []ObsVal          `json:"observations"`
-	Covers   []string          `json:"covers"`
-	Kind     string            `json:"kind"` // validation | violation
-	Label    string            `json:"label,omitempty"`
-	Site     string            `json:"site,omitempty"`
-	Msg      string            `json:"msg,omitempty"`
-	Stack    []string          `json:"stack,omitempty"`
-	File     string            `json:"-"`
+	Property string   `json:"property"`
+	Pkg      string   `json:"pkg"`
+	Harness  string   `json:"harness"`
+	Params   []string `json:"params"`
+	ParamsQ  []string `json:"params_quoted"` // strconv.Quote of each parameter (byte-exact)
+	Values   []WitVal `json:"values"`
+	Choices  []WitVal `json:"choices"`
+	Outcome  string   `json:"outcome"` // done | panic | assert:<label> | steps | alloc | write
+	Obs      []ObsVal `json:"observations"`
+	Covers   []string `json:"covers"`
+	Kind     string   `json:"kind"` // validation | violation
+	Label    string   `json:"label,omitempty"`
+	Site     string   `json:"site,omitempty"`
+	Msg      string   `json:"msg,omitempty"`
+	Stack    []string `json:"stack,omitempty"`
+	File     string   `json:"-"`
 }
 
 type ObsVal struct {
@@ -204,6 +205,11 @@ func (e *Engine) RunHarness(cfg *HarnessCfg, nValidate int) (res *HarnessResult)
 	}
 	var prefix []Decision
 	complete := true
+	e.deadline = time.Time{}
+	e.deadlineHit = false
+	if cfg.MaxWallS > 0 {
+		e.deadline = t0.Add(time.Duration(cfg.MaxWallS * float64(time.Second)))
+	}
 	var vioWit []*Witness
 	for {
 		e.p = &PathState{prefix: prefix, occ: map[string]int{}}
@@ -277,6 +283,10 @@ func (e *Engine) RunHarness(cfg *HarnessCfg, nValidate int) (res *HarnessResult)
 		if e.globalDirty {
 			e.resetGlobals()
 		}
+		if cfg.StopAtCover != "" && e.stats.Covers[cfg.StopAtCover] > 0 {
+			complete = false
+			break
+		}
 		if end.kind == endStop {
 			complete = false
 			break
@@ -290,9 +300,11 @@ func (e *Engine) RunHarness(cfg *HarnessCfg, nValidate int) (res *HarnessResult)
 			e.stats.Inconclusive["path limit reached"]++
 			break
 		}
-		if cfg.MaxWallS > 0 && time.Since(t0).Seconds() > cfg.MaxWallS {
+		if e.deadlineHit || (cfg.MaxWallS > 0 && time.Since(t0).Seconds() > cfg.MaxWallS) {
 			complete = false
-			e.stats.Inconclusive["instance time limit reached"]++
+			if !e.deadlineHit {
+				e.stats.Inconclusive["instance time limit reached"]++
+			}
 			break
 		}
 	}
